@@ -17,7 +17,7 @@ SEPS = [', ', ',', '(', ')', '[', ']', ' ', '  ', '()', '),', ', )', '@', '#', '
 LOOKALIKES = ['nil', '12', '-1', '-1.5', '0.00000000', '3,5', '1e5', 'fd 3', 'array', 'array[4]', 'wl_surface@3', 'wl_surface#3',
               'new id x@4', 'new id [unknown]#4', 'new id', '[unknown]', '', ' ', ' x', 'x ', ', ', 'a, b', '(', ')', 'f(1, 2)',
               'a@1.b()', 'x) y', '[q]', '{q} ', '<7> ', 'a.b', "it's", 'nil, nil']
-EMBEDDED = ['[123.456]  -> a@1.b(', '[ 1.5] a#1.b(', '[1.0] {q} <2> x#3.y(1)', ' [1,0]  -> a@1.b(2', '} <1> b#2.g(1)', '} b#2.g(1',
+EMBEDDED = ['[123.456]  -> a@1.b(', '[ 1.5] a#1.b(', '[1.0] {q} <2> x#3.y(1)', ' [1,0]  -> a@1.b(2', '} <1> b#2.g(1)', '} b#2.g(1', '}  -> b#2.g(1', '} <3>  -> x#1.y(', '}  -> x@1.y(',
             '[0.000] ', '[4.2]  -> ']
 I32 = [0, 1, -1, 2, 7, 255, 256, -256, 65535, 2147483647, -2147483648, 2147483646, -2147483647, 1000000, 999]
 U32 = [0, 1, 2, 255, 256, 65536, 4294967295, 4294967294, 2147483648, 2147483647, 0xff000000, 0xfeffffff, 4278190081]
@@ -141,7 +141,7 @@ def compare(res, spec, rend, line):
         res.bad('valid-line-rejected', 'rejected (%s): %r' % (rend, line))
         return None
     embedded = any(TS_SHAPED.search(s) for s in strings_of(spec))
-    tag = ':embedded-timestamp' if embedded else ''
+    tag = ':embedded-timestamp' if embedded else (':embedded-brace' if any('} ' in s for s in strings_of(spec)) else '')
     if msg.sent != spec['sent']:
         res.bad('direction' + tag, '%r decoded sent=%r' % (line, msg.sent))
     if (msg.obj.type, msg.obj.id) != (spec['iface'], spec['id']) or msg.obj.resolved():
